@@ -7,7 +7,8 @@ import LexVerif.Props.C02
 C02's correctness predicate of the Dragonbox model (`dragonboxOk t bits`: `to_decimal` returns, up to trailing zeros
 of the significand, a member of `Spec.shortest`): `writerDigitsShortest_of_dragonboxOk`.  Consequences:
 * `roundtrip_decimal_value_full` — the full statement for every finite non-zero float (a `Prop`; it follows from
-  C02's full statement `dragonbox_correct`, which is open: `roundtrip_decimal_value_of_dragonbox_correct`);
+  C02's full statement `dragonbox_correct` (`roundtrip_decimal_value_of_dragonbox_correct`), which is now proved:
+  `roundtrip_decimal_value_holds`);
 * `roundtrip_decimal_value_partial` — **proved** for every float whose mantissa field is zero (all 2300 powers of two
   of f32 and f64: the `compute_nearest_shorter` branch, kernel-evaluated in C02), every valid decimal format, every
   compatible option pair without a digit limit, both signs.
@@ -105,6 +106,11 @@ def roundtrip_decimal_value_full : Prop :=
 theorem roundtrip_decimal_value_of_dragonbox_correct (h : LexVerif.Props.C02.dragonbox_correct) :
     roundtrip_decimal_value_full :=
   fun t bits h0 hfin => roundTripsAll_of_dragonboxOk t bits h0 hfin (h t bits h0 hfin)
+
+/-- **the full statement holds** (default, non-`compact` builds): C02's `dragonbox_correct` is proved for every finite
+non-zero f32 / f64 (`Props.C02.dragonbox_correct_holds`) -/
+theorem roundtrip_decimal_value_holds : roundtrip_decimal_value_full :=
+  roundtrip_decimal_value_of_dragonbox_correct LexVerif.Props.C02.dragonbox_correct_holds
 
 /-- **PROVED PART**: all floats with a zero mantissa field (every power of two of f32 and f64) -/
 theorem roundtrip_decimal_value_partial (t : FTy) (e : Nat) (h0 : 0 < e) (he : e < 2 ^ t.exponentSize.toNat - 1)
